@@ -162,3 +162,15 @@ package brontide
 //@   props C11
 //@   site call ECDH: assert arg(1) == pub
 //@   ensures result1 == retn(ECDH, 1)
+//@
+//@ func (c *Conn) Write
+//@   props C11
+//@   requires c != nil
+//@   loop * havoc
+//@   loop 0 invariant bytesToWrite == len(b) && chunkSize <= 65535
+//@   site call WriteMessage: domain c.noise.sendCipher.nonce < 999
+//@   site call Flush: domain len(c.noise.nextHeaderSend) <= 18 && len(c.noise.nextBodySend) <= 65535 + 16
+//@   site call WriteMessage nth 0: assert arg(1) == b && len(b) <= 65535
+//@   site call WriteMessage nth 1: assert arg(1) == subslice(b, bytesWritten, bytesWritten + chunkSize) &&
+//@        (0 <= bytesWritten && bytesWritten <= len(b) ==> bytesWritten + chunkSize <= len(b) && chunkSize <= 65535)
+//@   site call Flush nth 1: assert ret(WriteMessage, 1) == nil
